@@ -1,14 +1,23 @@
 #!/bin/bash
 # usage: runfacts.sh <repo> <outdir> <config-label> [cargo feature args...]
+# Runs `cargo +nightly check` on <repo> with the tomlfacts driver as RUSTC_WORKSPACE_WRAPPER.
+# Dependencies are built once into a shared target directory; the fingerprints of the workspace
+# members are deleted first so that cargo re-runs the wrapper on them for every call (cargo's
+# freshness cache would otherwise replay old output and skip the driver).
 set -e
 REPO=$1; OUT=$2; CFG=$3; shift 3
 mkdir -p "$OUT"
-T=$(mktemp -d /tmp/tomlfacts-target.XXXXXX)
-trap 'rm -rf "$T"' EXIT
+VERIF_DIR=$(cd "$(dirname "$0")/.." && pwd)
+T="$VERIF_DIR/.cache/target-shared"
+mkdir -p "$T"
+exec 9>"$T/.lock"
+flock 9
+rm -rf "$T"/debug/.fingerprint/toml-* "$T"/debug/.fingerprint/toml_edit-* "$T"/debug/.fingerprint/toml_write-* \
+       "$T"/debug/.fingerprint/toml_datetime-* "$T"/debug/.fingerprint/serde_spanned-* 2>/dev/null || true
 cd "$REPO"
 LD_LIBRARY_PATH=$(rustc +nightly --print sysroot)/lib \
 RUSTFLAGS="-Zmir-opt-level=0 -Awarnings" \
-RUSTC_WORKSPACE_WRAPPER=/verif/tools/tomlfacts/target/debug/tomlfacts \
+RUSTC_WORKSPACE_WRAPPER="$VERIF_DIR/tools/tomlfacts/target/debug/tomlfacts" \
 CARGO_TARGET_DIR=$T TOMLFACTS_OUT=$OUT TOMLFACTS_CONFIG=$CFG \
 TOMLFACTS_CRATES=toml_edit,toml,toml_write,toml_datetime,serde_spanned \
 CARGO_NET_OFFLINE=true cargo +nightly check --offline "$@"
